@@ -24,53 +24,192 @@ pub open spec fn per_u16(v: u16, min: u16) -> Seq<u8> { be16((v - min) as u16) }
 pub open spec fn per_oid(o: Seq<u8>) -> Seq<u8> { seq![5u8, (o[0] << 4) | (o[1] & 0xf), o[2], o[3], o[4], o[5]] }
 /// OCTET STRING with lower bound `min` on its length
 pub open spec fn per_octets(s: Seq<u8>, min: int) -> Seq<u8> { per_len((s.len() - min) as u16) + s }
+/// decode of per_int: the length determinant must say 1, 2 or 4 ...
+pub open spec fn per_int_len_ok(b: Seq<u8>) -> bool { let l = per_len_dec(b).0; l == 1 || l == 2 || l == 4 }
+/// ... then (value, bytes consumed) = big-endian integer of that many bytes after the determinant
+pub open spec fn per_int_dec(b: Seq<u8>) -> (u32, int) {
+    let l = per_len_dec(b);
+    let h = l.1;
+    if l.0 == 1 { (b[h] as u32, h + 1) }
+    else if l.0 == 2 { (u16_be(b[h], b[h + 1]) as u32, h + 2) }
+    else { (u32_be(b[h], b[h + 1], b[h + 2], b[h + 3]), h + 4) }
+}
 ''', mod="per", name="per_specs")
 
-# TODO(agent): contracts below are the TOP-LEVEL obligations; add loops/hints/lemmas so that they verify.
+per_lemmas = Raw(r'''
+// ---------------- C18 round-trip lemmas: decode(encode(v) ++ tail) == (v, |encode(v)|), for EVERY value of the domain
+pub proof fn lemma_len_roundtrip(n: u16, tail: Seq<u8>)
+    requires n <= 0x7fff
+    ensures per_len_dec(per_len(n) + tail) == (n, per_len(n).len() as int),
+        per_len(n).len() == (if n > 0x7f { 2int } else { 1int }),
+{
+    let b = per_len(n) + tail;
+    if n > 0x7f {
+        let hi = (((n | 0x8000) >> 8) & 0xff) as u8;
+        let lo = ((n | 0x8000) & 0xff) as u8;
+        assert(per_len(n) =~= seq![hi, lo]);
+        assert(b[0] == hi && b[1] == lo);
+        assert(hi & 0x80 != 0) by(bit_vector) requires hi == (((n | 0x8000) >> 8) & 0xff) as u8;
+        assert((((hi & 0x7f) as u16) << 8) == n & 0x7f00) by(bit_vector) requires hi == (((n | 0x8000) >> 8) & 0xff) as u8, n <= 0x7fff;
+        assert(lo as u16 == n & 0xff) by(bit_vector) requires lo == ((n | 0x8000) & 0xff) as u8;
+        assert((n & 0x7f00) + (n & 0xff) == n) by(bit_vector) requires n <= 0x7fff;
+    } else {
+        let b0 = n as u8;
+        assert(b[0] == b0);
+        assert(b0 & 0x80 == 0) by(bit_vector) requires b0 <= 0x7f;
+    }
+}
+
+pub proof fn lemma_be32_roundtrip(v: u32)
+    ensures u32_be(be32(v)[0], be32(v)[1], be32(v)[2], be32(v)[3]) == v, be32(v).len() == 4
+{
+    assert((((((v >> 24) & 0xff) as u8) as u32) << 24) | (((((v >> 16) & 0xff) as u8) as u32) << 16) | (((((v >> 8) & 0xff) as u8) as u32) << 8) | (((v & 0xff) as u8) as u32) == v) by(bit_vector);
+}
+
+pub proof fn lemma_int_roundtrip(v: u32, tail: Seq<u8>)
+    ensures per_int_len_ok(per_int(v) + tail), per_int_dec(per_int(v) + tail) == (v, per_int(v).len() as int),
+        (per_int(v) + tail).skip(per_int(v).len() as int) =~= tail,
+{
+    let b = per_int(v) + tail;
+    assert(1u8 & 0x80 == 0 && 2u8 & 0x80 == 0 && 4u8 & 0x80 == 0) by(bit_vector);
+    if v < 0xff {
+        assert(b[0] == 1u8 && b[1] == v as u8);
+    } else if v < 0xffff {
+        lemma_be16_roundtrip(v as u16);
+        let e = be16(v as u16);
+        assert(per_int(v).len() == 3);
+        assert(b[0] == 2u8 && b[1] == e[0] && b[2] == e[1]);
+    } else {
+        lemma_be32_roundtrip(v);
+        let e = be32(v);
+        assert(per_int(v).len() == 5);
+        assert(b[0] == 4u8 && b[1] == e[0] && b[2] == e[1] && b[3] == e[2] && b[4] == e[3]);
+    }
+}
+
+pub proof fn lemma_u16_roundtrip(v: u16, min: u16)
+    requires v >= min
+    ensures per_u16(v, min).len() == 2, u16_be(per_u16(v, min)[0], per_u16(v, min)[1]) + min == v
+{
+    lemma_be16_roundtrip((v - min) as u16);
+}
+
+// lemma_oid_roundtrip*: the decoding formula is the one of read_object_identifier's `compares-all-six-arcs` clause (d = per_len_dec(b); arcs at b[d.1 .. d.1 + 5])
+pub proof fn lemma_oid_roundtrip_tail(o: Seq<u8>, tail: Seq<u8>)
+    requires o.len() == 6, o[0] < 16, o[1] < 16
+    ensures ({ let b = per_oid(o) + tail; let d = per_len_dec(b);
+        d == (5u16, 1int) && b.len() >= d.1 + 5 && b.skip(d.1 + 5) =~= tail
+        && forall|k: int| 0 <= k < 6 ==> #[trigger] o[k] == (if k == 0 { b[d.1] >> 4 } else if k == 1 { b[d.1] & 0xf } else { b[d.1 - 1 + k] }) }),
+{
+    let a = o[0]; let c = o[1];
+    assert((((a << 4) | (c & 0xf)) >> 4) == a && (((a << 4) | (c & 0xf)) & 0xf) == c) by(bit_vector) requires a < 16, c < 16;
+    assert(5u8 & 0x80 == 0) by(bit_vector);
+    let b = per_oid(o) + tail;
+    assert(b[0] == 5u8 && b[1] == (a << 4) | (c & 0xf) && b[2] == o[2] && b[3] == o[3] && b[4] == o[4] && b[5] == o[5]);
+}
+pub proof fn lemma_oid_roundtrip(o: Seq<u8>)
+    requires o.len() == 6, o[0] < 16, o[1] < 16
+    ensures ({ let b = per_oid(o); let d = per_len_dec(b);
+        b.len() == 6 && d == (5u16, 1int)
+        && forall|k: int| 0 <= k < 6 ==> #[trigger] o[k] == (if k == 0 { b[d.1] >> 4 } else if k == 1 { b[d.1] & 0xf } else { b[d.1 - 1 + k] }) }),
+{
+    lemma_oid_roundtrip_tail(o, Seq::empty());
+    assert(per_oid(o) + Seq::<u8>::empty() =~= per_oid(o));
+}
+
+pub proof fn lemma_octets_roundtrip(s: Seq<u8>, min: int, tail: Seq<u8>)
+    requires 0 <= min <= s.len(), s.len() - min <= 0x7fff
+    ensures ({ let b = per_octets(s, min) + tail; let d = per_len_dec(b);
+        b.len() >= d.1 + s.len() && d.0 as int + min == s.len() && b.subrange(d.1, d.1 + s.len()) =~= s && b.skip(d.1 + s.len()) =~= tail }),
+{
+    let n = (s.len() - min) as u16;
+    lemma_len_roundtrip(n, s + tail);
+    assert(per_octets(s, min) + tail =~= per_len(n) + (s + tail));
+}
+pub proof fn lemma_len_dec_bound(b: Seq<u8>)
+    ensures per_len_dec(b).0 <= 0x7fff, b[0] & 0x80 == 0 ==> per_len_dec(b).0 <= 0x7f
+{
+    let b0 = b[0]; let b1 = b[1];
+    assert((((b0 & 0x7f) as u16) << 8) <= 0x7f00) by(bit_vector);
+    assert(b0 & 0x80 == 0 ==> b0 <= 0x7f) by(bit_vector);
+}
+''', mod="per", name="per_lemmas")
+
+MONO = ("C05", "monotone", "is_suffix(final(s).rest(), old(s).rest())")
+BYTE = ("C05,C18", "decodes", "r is Ok ==> old(s).rest().len() >= 1 && r->Ok_0 == old(s).rest()[0] && final(s).rest() =~= old(s).rest().skip(1)")
+WFRAME = (None, "err-prefix", "is_prefix(old(s).written(), final(s).written())")
+B = "let ghost b = s.rest();"
+
 UNIT = Unit("per", ["base.rs", "model.rs", "leaf.rs", "lemmas.rs"], [
     per_specs,
+    per_lemmas,
     Fn(PER, "read_length", mod="per", props=["C05", "C18"],
        ensures=[("C05,C18", "decodes", "r is Ok ==> old(s).rest().len() >= 1 && (old(s).rest()[0] & 0x80 != 0 ==> old(s).rest().len() >= 2) && r->Ok_0 == per_len_dec(old(s).rest()).0 && final(s).rest() =~= old(s).rest().skip(per_len_dec(old(s).rest()).1)"),
-                ("C05", "monotone", "is_suffix(final(s).rest(), old(s).rest())")]),
-    Fn(PER, "write_length", mod="per", props=["C18", "C04"],
-       ensures=[("C18,C04", "encodes", "r is Ok && length <= 0x7fff ==> ser(r->Ok_0.mv()) =~= per_len(length)"), (None, "total", "r is Ok")]),
-    Fn(PER, "read_choice", mod="per", props=["C05"]),
+                MONO,
+                ("C05", "bounded", "r is Ok ==> r->Ok_0 <= 0x7fff")],
+       pre=B,
+       hints=[(r"byte = byte & !0x80;", 1, "proof { let b0 = b[0]; assert(b0 & !0x80u8 == b0 & 0x7f && (b0 & 0x7f) <= 0x7f) by(bit_vector); }"),
+              (r"let mut size = ", 1, "proof { assert(((byte as u16) << 8) <= 0x7f00) by(bit_vector) requires byte <= 0x7f; }"),
+              (r"byte\.read\(s\)\?;", 2, "proof { assert(s.rest() =~= b.skip(2)); }")]),
+    Fn(PER, "write_length", mod="per", props=["C18", "C04"], fuel=3,
+       ensures=[("C18,C04", "encodes", "r is Ok && length <= 0x7fff ==> ser(r->Ok_0.mv()) =~= per_len(length)"), (None, "total", "r is Ok"),
+                (None, "encodes-any", "r is Ok ==> ser(r->Ok_0.mv()) =~= per_len(length)")]),
+    Fn(PER, "read_choice", mod="per", props=["C05", "C18"], ensures=[BYTE, MONO]),
     Fn(PER, "write_choice", mod="per", props=["C18"],
-       ensures=[("C18", "encodes", "r is Ok ==> final(s).written() =~= old(s).written() + seq![choice]")]),
-    Fn(PER, "read_selection", mod="per", props=["C05"]),
+       ensures=[("C18", "encodes", "r is Ok ==> final(s).written() =~= old(s).written() + seq![choice]"), WFRAME]),
+    Fn(PER, "read_selection", mod="per", props=["C05", "C18"], ensures=[BYTE, MONO]),
     Fn(PER, "write_selection", mod="per", props=["C18"],
-       ensures=[("C18", "encodes", "r is Ok ==> final(s).written() =~= old(s).written() + seq![selection]")]),
-    Fn(PER, "read_number_of_set", mod="per", props=["C05"]),
+       ensures=[("C18", "encodes", "r is Ok ==> final(s).written() =~= old(s).written() + seq![selection]"), WFRAME]),
+    Fn(PER, "read_number_of_set", mod="per", props=["C05", "C18"], ensures=[BYTE, MONO]),
     Fn(PER, "write_number_of_set", mod="per", props=["C18"],
-       ensures=[("C18", "encodes", "r is Ok ==> final(s).written() =~= old(s).written() + seq![number_of_set]")]),
-    Fn(PER, "read_enumerates", mod="per", props=["C05"],
-       ensures=[("C05,C18", "decodes", "r is Ok ==> old(s).rest().len() >= 1 && r->Ok_0 == old(s).rest()[0] && final(s).rest() =~= old(s).rest().skip(1)")]),
+       ensures=[("C18", "encodes", "r is Ok ==> final(s).written() =~= old(s).written() + seq![number_of_set]"), WFRAME]),
+    Fn(PER, "read_enumerates", mod="per", props=["C05"], ensures=[BYTE, MONO]),
     Fn(PER, "write_enumerates", mod="per", props=["C18"], ensures=["r is Ok && r->Ok_0 == enumerate"]),
     Fn(PER, "read_integer", mod="per", props=["C05", "C18"],
-       ensures=[("C05", "monotone", "is_suffix(final(s).rest(), old(s).rest())")]),
+       ensures=[("C05,C18", "decodes", "r is Ok ==> per_int_len_ok(old(s).rest()) && old(s).rest().len() >= per_int_dec(old(s).rest()).1 && r->Ok_0 == per_int_dec(old(s).rest()).0 && final(s).rest() =~= old(s).rest().skip(per_int_dec(old(s).rest()).1)"),
+                MONO]),
     Fn(PER, "write_integer", mod="per", props=["C18"],
        ensures=[("C18", "encodes", "r is Ok ==> final(s).written() =~= old(s).written() + per_int(integer)")]),
     Fn(PER, "read_integer_16", mod="per", props=["C05", "C18"],
        ensures=[("C05,C18", "decodes", "r is Ok ==> old(s).rest().len() >= 2 && r->Ok_0 as int == u16_be(old(s).rest()[0], old(s).rest()[1]) as int + minimum as int && final(s).rest() =~= old(s).rest().skip(2)"),
-                ("C05", "monotone", "is_suffix(final(s).rest(), old(s).rest())")]),
+                MONO]),
     Fn(PER, "write_integer_16", mod="per", props=["C18"],
        requires=["integer >= minimum"],
-       ensures=[("C18", "encodes", "r is Ok ==> final(s).written() =~= old(s).written() + per_u16(integer, minimum)")]),
+       ensures=[("C18", "encodes", "r is Ok ==> final(s).written() =~= old(s).written() + per_u16(integer, minimum)"), WFRAME]),
+    # the length determinant may be the (non canonical) two byte form 0x80 0x05: positions are relative to d.1 = per_len_dec(b).1
     Fn(PER, "read_object_identifier", mod="per", props=["C05", "C18"],
-       ensures=[("C18", "compares-all-six-arcs", "r is Ok ==> oid@.len() == 6 && old(s).rest().len() >= 6 && old(s).rest()[0] == 5 && (r->Ok_0 <==> (forall|k: int| 0 <= k < 6 ==> #[trigger] oid@[k] == (if k == 0 { old(s).rest()[1] >> 4 } else if k == 1 { old(s).rest()[1] & 0xf } else { old(s).rest()[k] }))) && final(s).rest() =~= old(s).rest().skip(6)"),
-                ("C05", "monotone", "is_suffix(final(s).rest(), old(s).rest())")]),
-    Fn(PER, "write_object_identifier", mod="per", props=["C18"],
-       ensures=[("C18", "encodes", "r is Ok ==> oid@.len() == 6 && final(s).written() =~= old(s).written() + per_oid(oid@)")]),
+       ensures=[("C18", "compares-all-six-arcs", "r is Ok ==> ({ let b = old(s).rest(); let d = per_len_dec(b); oid@.len() == 6 && d.0 == 5 && b.len() >= d.1 + 5 && (r->Ok_0 <==> (forall|k: int| 0 <= k < 6 ==> #[trigger] oid@[k] == (if k == 0 { b[d.1] >> 4 } else if k == 1 { b[d.1] & 0xf } else { b[d.1 - 1 + k] }))) && final(s).rest() =~= b.skip(d.1 + 5) })"),
+                ("C18", "canonical-length", "r is Ok && old(s).rest()[0] & 0x80 == 0 ==> old(s).rest()[0] == 5 && old(s).rest().len() >= 6 && final(s).rest() =~= old(s).rest().skip(6)"),
+                MONO],
+       pre=B,
+       hints=[(r"oid_parsed\[5\] = tmp;", 1, "proof { let d = per_len_dec(b); assert(s.rest() =~= b.skip(d.1 + 5)); assert(oid_parsed@[0] == b[d.1] >> 4 && oid_parsed@[1] == b[d.1] & 0xf && oid_parsed@[2] == b[d.1 + 1] && oid_parsed@[3] == b[d.1 + 2] && oid_parsed@[4] == b[d.1 + 3] && oid_parsed@[5] == b[d.1 + 4]); }")]),
+    Fn(PER, "write_object_identifier", mod="per", props=["C18"], fuel=8,
+       ensures=[("C18", "encodes", "r is Ok ==> oid@.len() == 6 && final(s).written() =~= old(s).written() + per_oid(oid@)"), WFRAME]),
+    # `length as usize + minimum + 1`: overflow unless the caller's constant is bounded (no caller in /repo/src)
     Fn(PER, "read_numeric_string", mod="per", props=["C05"],
-       ensures=[("C05", "bounded-allocation", "r is Ok ==> r->Ok_0@.len() <= 0x7fff + 0xff + minimum + 1")]),
+       requires=["minimum <= 0xffff"],
+       ensures=[("C05", "bounded-allocation", "r is Ok ==> r->Ok_0@.len() <= 0x7fff + 0xff + minimum + 1"), MONO],
+       hints=[(r"let length = read_length\(s\)\?;", 1, "proof { assert(length <= 0x7fff); }")]),
+    # `len as i64 - minimum as i64`: caller-side preconditions (slices never exceed isize::MAX; minimum is a constant)
     Fn(PER, "write_numeric_string", mod="per", props=[],
-       requires=["forall|k: int| 0 <= k < string@.len() ==> 0x30 <= #[trigger] string@[k] <= 0x39"]),
-    Fn(PER, "read_padding", mod="per", props=["C05"]),
+       requires=["forall|k: int| 0 <= k < string@.len() ==> 0x30 <= #[trigger] string@[k] <= 0x39",
+                 "string@.len() <= i64::MAX", "minimum <= i64::MAX"],
+       nloops=1,
+       loops={1: "invariant forall|k: int| 0 <= k < string@.len() ==> 0x30 <= #[trigger] string@[k] <= 0x39,"}),
+    Fn(PER, "read_padding", mod="per", props=["C05"], ensures=[MONO]),
     Fn(PER, "write_padding", mod="per", props=["C18"],
-       ensures=[("C18", "encodes", "r is Ok ==> final(s).written().len() == old(s).written().len() + length")]),
+       ensures=[("C18", "encodes", "r is Ok ==> final(s).written().len() == old(s).written().len() + length"), WFRAME]),
+    # `read_length(s)? as usize + minimum`: overflow unless the caller's constant is bounded (the caller passes 4)
     Fn(PER, "read_octet_stream", mod="per", props=["C05", "C18"],
+       requires=["minimum <= 0xffff"],
        ensures=[("C18", "compares", "r is Ok ==> ({ let b = old(s).rest(); let d = per_len_dec(b); b.len() >= d.1 + octet_stream@.len() && d.0 as int + minimum == octet_stream@.len() && b.subrange(d.1, d.1 + octet_stream@.len()) =~= octet_stream@ && final(s).rest() =~= b.skip(d.1 + octet_stream@.len()) })"),
-                ("C05", "monotone", "is_suffix(final(s).rest(), old(s).rest())")]),
+                MONO],
+       pre=B + " let ghost d = per_len_dec(b);",
+       nloops=1,
+       loops={1: """invariant b == old(s).rest(), d == per_len_dec(b), length == octet_stream@.len(), d.0 as int + minimum == length, 1 <= d.1 <= 2, b.len() >= d.1 + i,
+            s.rest() =~= b.skip(d.1 + i),
+            forall|k: int| 0 <= k < i ==> b[d.1 + k] == #[trigger] octet_stream@[k],"""}),
     Fn(PER, "write_octet_stream", mod="per", props=["C18", "C04"],
+       requires=["octet_string@.len() <= i64::MAX", "minimum <= i64::MAX"],
        ensures=[("C18,C04", "encodes", "r is Ok && octet_string@.len() >= minimum && octet_string@.len() - minimum <= 0x7fff ==> final(s).written() =~= old(s).written() + per_octets(octet_string@, minimum as int)")]),
 ])
